@@ -65,8 +65,9 @@ func runSyncer(s *core.Sim, tier string, liveness bool) RunInfo {
 		return info()
 	}
 	rec := time.Duration(1+s.Tape.Draw("recency-blocks", 4)) * space
-	if err := w.NewSyncer(hsync.WithBlockTime(space), hsync.WithTrustingPeriod(1000*time.Hour), hsync.WithRecencyThreshold(rec),
-		hsync.WithSyncFromHeight(tailH), hsync.WithPruningWindow(2000*time.Hour)); err != nil {
+	syOpts := []hsync.Option{hsync.WithBlockTime(space), hsync.WithTrustingPeriod(1000 * time.Hour), hsync.WithRecencyThreshold(rec),
+		hsync.WithSyncFromHeight(tailH), hsync.WithPruningWindow(2000 * time.Hour)}
+	if err := w.NewSyncer(syOpts...); err != nil {
 		s.Aborted = "NewSyncer: " + err.Error()
 		return info()
 	}
@@ -332,6 +333,43 @@ func runSyncer(s *core.Sim, tier string, liveness bool) RunInfo {
 				h = w.Ch.At(accepted)
 			}
 			pending = append(pending, deliver("duplicate", h, true))
+		}
+	}
+	if liveness && s.Tape.Coin("restart-syncer-mid-flight", 1, 4) {
+		// the Syncer is stopped in the middle of whatever it is doing (gossip being verified, a
+		// sync running, Head() callers waiting) and a new one is started over the same Store: no
+		// hang, no panic, nothing foreign stored, and the new one resumes from the store head
+		var stopErr error
+		old := w.Sy
+		stopT := s.Go("syncer-stop", func() {
+			c, cancel := context.WithTimeout(ctx, 10*time.Minute)
+			defer cancel()
+			stopErr = old.Stop(c)
+		})
+		if stuck := s.Settle(40*time.Minute, append(pending, stopT)...); len(stuck) > 0 && !s.Failed() {
+			s.Violate("hang", map[string]string{"op": opName(stuck[0].Name), "racing": "stop"}, "task %s did not finish while the Syncer was being stopped ops=%v", stuck[0].Name, hist)
+			return info()
+		}
+		pending = nil
+		if stopT.Panic != nil {
+			s.Violate("panic", map[string]string{"op": "Stop"}, "Syncer.Stop panicked: %v\n%s", stopT.Panic, stopT.Stack)
+			return info()
+		}
+		hist = append(hist, fmt.Sprintf("Syncer stopped mid-flight (err=%v) and restarted", stopErr))
+		s.Probe("syncer-restarted-mid-flight")
+		w.checkStoreIsHonestChain("after the Syncer was stopped mid-flight", false)
+		if s.Failed() {
+			return info()
+		}
+		if err := w.NewSyncer(syOpts...); err != nil {
+			s.Aborted = "NewSyncer (restart): " + err.Error()
+			return info()
+		}
+		var rerr error
+		rt, rfin := s.Do("syncer-restart", 10*time.Minute, func() { rerr = w.Sy.Start(context.Background()) })
+		if rt.Panic != nil || !rfin || rerr != nil {
+			s.Violate("start-error", map[string]string{"after": "stop-mid-flight"}, "restarting the Syncer over the same Store: finished=%v panic=%v err=%v ops=%v", rfin, rt.Panic, rerr, hist)
+			return info()
 		}
 	}
 	if !settle("end of workload") {
